@@ -148,7 +148,7 @@ BUILDER = {
         "mutations": [{"switch": "AbsLookup", "docs": "C04_Docs3", "range": "C04_Range3", "stages": (2, 2), "expect": ["Inv_C04"]},
                       {"switch": "FnTruthyWhenEmpty", "docs": "C04_Docs", "range": "C04_Range", "stages": (2, 2), "expect": ["Inv_C04"]},
                       {"mutation": "PruneEqualPriority", "docs": "C04_Docs3", "range": "C04_Range3", "stages": (2, 2), "expect": ["Inv_C04"]},
-                      {"mutation": "ClearRemovesKey", "docs": "C04_Docs3", "range": "C04_Range3", "stages": (2, 2), "expect": ["Inv_C04"]}],
+                      {"mutation": "ClearKeepsContent", "docs": "C04_Docs3", "range": "C04_Range3", "stages": (2, 2), "expect": ["Inv_C04"]}],
         "witness": "C04_Witness",
         "gen": _gen_c04, "random": {"quick": 1500, "thorough": 30000}, "max_stages": 4,
         "nontrivial": _c04_nontrivial,
@@ -204,7 +204,7 @@ META["C04"] = {"engine": "builder-family", "design_ref": "DESIGN.md 5/C04",
             "oracle (Protect = older entries with strictly higher priority than the nearest newer node; Spec = key-wise / index-wise "
             "combination after Protect) on every enumerated 2(3)-stage history, the oracle being evaluated from the OBSERVED older tree "
             "and the newer document; behaviours replayed through Builder; recorded random histories validated by TLC; "
-            "mutation cfgs AbsLookup / FnTruthyWhenEmpty / PruneEqualPriority / ClearRemovesKey must be refuted.",
+            "mutation cfgs AbsLookup / FnTruthyWhenEmpty / PruneEqualPriority / ClearKeepsContent must be refuted.",
     "note": _BUILDER_NOTE + "; domain narrowed as DESIGN 5/C04 states (uniform priority below lists, remove-this-key idiom and "
             "vanishing !del containers excluded, function nodes as merge partners left to C13)"}
 NOT_APPLICABLE = {}
